@@ -82,6 +82,9 @@ type BaseExtra struct {
 	// adding such an extra leaves the scenarios of the runs that do not select it unchanged, and
 	// changes only the replaced operations in those that do.
 	OwnRand bool
+	// Share, when set, makes the extra supply about 1/Share of the transactions of a run that
+	// selected it (default 6).
+	Share int
 }
 
 var baseExtras []*BaseExtra
@@ -219,7 +222,11 @@ func (e Engine) Generate(r *core.Rand, tier core.Tier) *core.Scenario {
 			}
 			for xi, x := range extras {
 				xr := extraRand[xi]
-				if xr.Chance(1, 6) {
+				share := 6
+				if x.Share > 0 {
+					share = x.Share
+				}
+				if xr.Chance(1, share) {
 					op.Kind = x.Kinds[xr.Intn(len(x.Kinds))]
 					if x.WideArg {
 						op.Arg = xr.Intn(1 << 16)
